@@ -102,7 +102,17 @@ func (r *Report) finish() int {
 	}
 	for _, fr := range r.results {
 		if fr.err != nil {
+			// a contract that cannot be turned into obligations affects every property it serves (function- and clause-level tags)
+			served := map[string]bool{}
 			for _, p := range fr.fc.Serves {
+				served[p] = true
+			}
+			for _, cl := range fr.fc.Clauses {
+				for _, p := range cl.Tags {
+					served[p] = true
+				}
+			}
+			for _, p := range sortedKeys(served) {
 				if len(want) == 0 || want[p] {
 					get(p).genErrs = append(get(p).genErrs, fr.err.Error())
 				}
@@ -218,8 +228,8 @@ func (r *Report) finish() int {
 			exit = 2
 		}
 		r.writeEvidence(ps, viol)
-		if viol > 0 && exit == 0 {
-			exit = 1
+		if viol > 0 {
+			exit = 1 // a violation outranks the vacuity / generator diagnostics that usually follow from it
 		}
 		fmt.Printf("property %s: %d obligations, %d discharged, %d known findings, %d violations, %d not attempted (%.1fs)\n",
 			id, len(ps.obls)-ps.notAtt-len(ps.known), ps.discharged, len(ps.known), viol, ps.notAtt, time.Since(r.t0).Seconds())
